@@ -529,12 +529,12 @@ def run_single(ctx, world, cases):
 EXTRA = """
 Definition case_t := (ty * val * result val * result val * result val * result val)%type.
 Definition on_ok (r : result val) (f : val -> bool) : bool := match r with Ok x => f x | Err _ => true end.
-Definition tie_call (c : case_t) : bool := let '(t, v, rc, rs, rf, ra) := c in res_equiv (coerce live W false t v) rc.
-Definition tie_sac (c : case_t) : bool := let '(t, v, rc, rs, rf, ra) := c in res_equiv (coerce live W true t v) rs.
-Definition tie_field (c : case_t) : bool := let '(t, v, rc, rs, rf, ra) := c in res_equiv (assign live W t v) rf.
+Definition tie_call (c : case_t) : bool := let '(t, v, rc, rs, rf, ra) := c in res_tie (coerce live W false t v) rc.
+Definition tie_sac (c : case_t) : bool := let '(t, v, rc, rs, rf, ra) := c in res_tie (coerce live W true t v) rs.
+Definition tie_field (c : case_t) : bool := let '(t, v, rc, rs, rf, ra) := c in res_tie (assign live W t v) rf.
 Definition tie_again (c : case_t) : bool :=
   let '(t, v, rc, rs, rf, ra) := c in
-  match rc with Ok x => res_equiv (coerce live W false t x) ra | Err _ => true end.
+  match rc with Ok x => res_tie (coerce live W false t x) ra | Err _ => true end.
 Definition spec_conf (c : case_t) : bool :=
   let '(t, v, rc, rs, rf, ra) := c in
   on_ok rc (conformsb live t) && on_ok rs (conformsb live t) && on_ok rf (conformsb live t).
@@ -544,6 +544,9 @@ Definition spec_nss_full (c : case_t) : bool :=
 Definition spec_nss_f20 (c : case_t) : bool :=
   let '(t, v, rc, rs, rf, ra) := c in on_ok rc (nss f20_pairs v) && on_ok rf (nss f20_pairs v).
 Definition in_idem_domain (c : case_t) : bool := let '(t, v, rc, rs, rf, ra) := c in union_free t.
+Definition modelled (c : case_t) : bool :=
+  let '(t, v, rc, rs, rf, ra) := c in
+  negb (is_unmodelled (coerce live W false t v) || is_unmodelled (coerce live W true t v) || is_unmodelled (assign live W t v)).
 """
 
 
@@ -560,7 +563,7 @@ def run(ctx):
         extra = world.coq_fs() + EXTRA
         checks = {"tie_call": "tie_call", "tie_sac": "tie_sac", "tie_field": "tie_field", "tie_again": "tie_again",
                   "spec_conf": "spec_conf", "spec_idem": "spec_idem", "spec_nss_full": "spec_nss_full",
-                  "spec_nss_f20": "spec_nss_f20", "idem_domain": "in_idem_domain"}
+                  "spec_nss_f20": "spec_nss_f20", "idem_domain": "in_idem_domain", "modelled": "modelled"}
         res = coqio.run_cases(ctx.scratch, "c20", IMPORTS, "case_t", terms, checks, extra=extra, shard=400)
         seen, nontrivial = set(), 0
         dist = {"accepted_unchanged": 0, "accepted_converted": 0, "rejected_TypeError": 0, "rejected_other": 0,
@@ -584,6 +587,7 @@ def run(ctx):
                       samples=[{k: m[k] for k in ("type_str", "value_repr", "call", "field", "again")} for m in meta[len(SEEDS):len(SEEDS) + 6]],
                       distribution=dist, traces_validated=len(meta))
         out.extra["distinct_pairs"] = len(seen)
+        out.extra["cases_where_the_model_does_not_speak"] = len(res["modelled"])
         out.failures += early
 
         def case_of(m):
@@ -646,6 +650,7 @@ Fixpoint run_hist (t : ty) (cur : val) (vs : list val) : list bool * val :=
   end.
 Definition tie_hist (c : hcase_t) : bool :=
   let '(t, v0, vs, oks, fin) := c in
+  existsb (fun v => is_unmodelled (assign live W t v)) (v0 :: vs) ||
   match assign live W t v0 with
   | Ok x0 => let '(oks', fin') := run_hist t x0 vs in list_eqb Bool.eqb oks oks' && val_equiv fin' fin
   | Err _ => false
